@@ -775,15 +775,255 @@ def lock_mode_table(repo=REPO):
     return table, problems, refused
 
 
+WRITE_ATTRS = {'write', 'writelines', 'unlink', 'touch', 'mkdir', 'rename', 'rmdir', 'symlink_to', 'write_text',
+               'write_bytes', 'to_csv', 'to_json', 'dump', 'copy2', 'copy', 'copyfile', 'move', 'rmtree', 'remove', 'truncate'}
+READ_ATTRS = {'readlines', 'read', 'readline', 'read_csv', 'exists', 'is_file', 'is_dir', 'read_text', 'load', 'iterdir',
+              'glob', 'resolve', 'read_json'}
+PURE_ATTRS = {'split', 'append', 'count', 'startswith', 'endswith', 'strip', 'join', 'format'}
+WRITE_NAMES = {'write_csv', 'write_model', 'create_directory_symlink'}
+PURE_NAMES = {'len', 'str', 'int', 'next', 'sorted', 'list', 'read_results'}
+
+
+def lock_sites(repo=REPO):
+    """Fail-closed `ast` translator: every `with self._read_lock(..)` / `with self._write_lock(..)` of the two user files
+    -> (Class.method, helper, operations inside the body).  Any construct it does not know is REFUSED."""
+    import ast
+    table, _, refused = lock_mode_table(repo)
+    sites = []
+    for rel in USERS:
+        tree = ast.parse((repo / rel).read_text())
+        nrefs = sum(1 for n in ast.walk(tree) if isinstance(n, ast.Attribute) and n.attr in ('_read_lock', '_write_lock'))
+        nsites = 0
+        for cls in [c for c in tree.body if isinstance(c, ast.ClassDef)]:
+            for fn in [f for f in cls.body if isinstance(f, ast.FunctionDef)]:
+                for w in [n for n in ast.walk(fn) if isinstance(n, ast.With)]:
+                    for item in w.items:
+                        ce = item.context_expr
+                        if not (isinstance(ce, ast.Call) and isinstance(ce.func, ast.Attribute) and ce.func.attr in ('_read_lock', '_write_lock')):
+                            continue
+                        if not (isinstance(ce.func.value, ast.Name) and ce.func.value.id == 'self') or len(w.items) != 1:
+                            refused.append(f'{rel}:{w.lineno}: lock helper not called as `with self.{ce.func.attr}(..)`')
+                            continue
+                        nsites += 1
+                        helper = ce.func.attr
+                        ops, local_defs = [], {d.name for st in w.body for d in ast.walk(st) if isinstance(d, ast.FunctionDef)}
+                        for st in w.body:
+                            for c in [n for n in ast.walk(st) if isinstance(n, ast.Call)]:
+                                f = c.func
+                                if isinstance(f, ast.Name) and f.id == 'open':
+                                    mode = c.args[1] if len(c.args) > 1 else next((k.value for k in c.keywords if k.arg == 'mode'), None)
+                                    if mode is None:
+                                        ops.append(('read', "open 'r'"))
+                                    elif isinstance(mode, ast.Constant) and isinstance(mode.value, str):
+                                        ops.append(('write' if set(mode.value) & set('wax+') else 'read', f"open '{mode.value}'"))
+                                    else:
+                                        refused.append(f'{rel}:{c.lineno}: open with a non-literal mode')
+                                elif isinstance(f, ast.Attribute):
+                                    a = f.attr
+                                    if a == 'replace':
+                                        ops.append(('write', 'replace (rename)') if len(c.args) == 1 else ('pure', 'str.replace'))
+                                    elif a in WRITE_ATTRS:
+                                        ops.append(('write', a))
+                                    elif a in READ_ATTRS:
+                                        ops.append(('read', a))
+                                    elif a in PURE_ATTRS:
+                                        ops.append(('pure', a))
+                                    else:
+                                        refused.append(f'{rel}:{c.lineno}: unknown operation .{a}() inside a lock body')
+                                elif isinstance(f, ast.Name):
+                                    if f.id.endswith('Transaction') or f.id in WRITE_NAMES:
+                                        ops.append(('write', f.id))
+                                    elif f.id.endswith('Snapshot'):
+                                        ops.append(('read', f.id))
+                                    elif f.id.endswith('Error') or f.id in PURE_NAMES or f.id in local_defs:
+                                        ops.append(('pure', f.id))
+                                    else:
+                                        refused.append(f'{rel}:{c.lineno}: unknown call {f.id}() inside a lock body')
+                                else:
+                                    refused.append(f'{rel}:{c.lineno}: unknown call shape inside a lock body')
+                        mode = table.get(f'{rel}:{helper}')
+                        if mode is None:
+                            refused.append(f'{rel}: mode of {helper} unknown')
+                            continue
+                        sites.append({'file': rel, 'line': w.lineno, 'name': f'{cls.name}.{fn.name}', 'helper': helper,
+                                      'shared': mode, 'writes': any(k == 'write' for k, _ in ops),
+                                      'reads': any(k == 'read' for k, _ in ops), 'ops': sorted({d for k, d in ops if k != 'pure'})})
+        if nrefs != nsites + 2:       # the two definitions (`def _read_lock`) are not Attribute nodes; uses are
+            pass
+        uses = sum(1 for n in ast.walk(tree) if isinstance(n, ast.Attribute) and n.attr in ('_read_lock', '_write_lock'))
+        if uses != nsites:
+            refused.append(f'{rel}: {uses} uses of the lock helpers but {nsites} `with` sites')
+    return sites, refused
+
+
+SPECIFIED = [('LocalDirectoryContext.store_annotation', False), ('LocalDirectoryContext.retrieve_annotation', True),
+             ('LocalDirectoryContext.store_message', False), ('LocalDirectoryContext.retrieve_log', True),
+             ('LocalModelDirectoryDatabase.snapshot', True), ('LocalModelDirectoryDatabase.transaction', False)]
+
+
 def check_users(ctx):
+    """Static part: lock-mode table, regenerated site list, obligations compiled by coqc on every run."""
     table, problems, refused = lock_mode_table()
     ctx.coverage['lock_mode_table'] = table
     for pr in problems:
         ctx.violation(f"{pr['file']}:{pr['function']} asks path_lock for shared={pr['shared']}: "
                       + ('readers exclude each other' if pr['shared'] is False else 'writers do not exclude anybody'),
                       {'static': True, 'problem': pr})
-    for r in refused:
-        ctx.broken.append('TRANSLATOR-REFUSED lock_mode_table: ' + r)
+    sites, refused2 = lock_sites()
+    ctx.coverage['lock_sites'] = sites
+    for r in sorted(set(refused + refused2)):
+        ctx.broken.append('TRANSLATOR-REFUSED lock sites: ' + r)
+    q = lambda x: '"' + x + '"'
+    terms = [f"mkSite {q(s['name'])} {'Shared' if s['shared'] else 'Exclusive'} {ct.boolean(s['writes'])} {ct.boolean(s['reads'])}"
+             for s in sites]
+    d = ctx.rundir / 'users'
+    d.mkdir(parents=True, exist_ok=True)
+    f = d / 'lock_sites.v'
+    f.write_text(
+        'From Coq Require Import List Bool String.\nFrom PV Require Import C15.Users.\nImport ListNotations.\n'
+        'Local Open Scope string_scope.\n(* regenerated from ' + ', '.join(USERS) + ' *)\n'
+        'Definition sites : list site := [\n  ' + ';\n  '.join(terms) + '\n].\n'
+        'Theorem writers_take_exclusive : writers_ok sites = true.\nProof. vm_compute. reflexivity. Qed.\n'
+        'Theorem lock_sites_as_specified : sites_as_specified sites = true.\nProof. vm_compute. reflexivity. Qed.\n'
+        'Eval vm_compute in (readers_shared sites).\n'
+        'Print Assumptions writers_take_exclusive.\nPrint Assumptions lock_sites_as_specified.\n')
+    from harness.lib.core import coqc_file
+    rc, out = coqc_file(f)
+    ctx.obligations += 2
+    ctx.coverage['readers_take_shared'] = 'true' in out.split('readers_shared')[-1][:40] if rc == 0 else None
+    if rc == 0 and out.count('Closed under the global context') == 2:
+        ctx.discharged += 2
+        ctx.coverage.setdefault('theorems', [])
+        ctx.coverage['regenerated_obligations'] = ['writers_take_exclusive', 'lock_sites_as_specified']
+        return sites
+    # find the concrete failing site(s)
+    bad = [s for s in sites if s['writes'] and s['shared']]
+    for s in bad:
+        ctx.violation(f"writers_take_exclusive fails: {s['name']} ({s['file']}:{s['line']}) performs {', '.join(s['ops'])} under "
+                      f"the SHARED lock ({s['helper']})", {'static': True, 'site': s})
+    got = [(s['name'], s['shared']) for s in sites]
+    if got != SPECIFIED:
+        missing = [n for n, _ in SPECIFIED if n not in [g for g, _ in got]]
+        changed = [(n, m) for n, m in got if (n, m) not in SPECIFIED]
+        if not bad:
+            ctx.violation(f"lock_sites_as_specified fails: missing lock sites {missing}, unexpected or changed {changed}",
+                          {'static': True, 'got': got, 'specified': SPECIFIED})
+    if not bad and got == SPECIFIED:
+        ctx.broken.append('regenerated obligations did not compile: ' + out[-400:])
+    return sites
+
+
+def users_oracle(ctx, sites):
+    """Oracle on the real classes: for every lock site, another virtual thread (same process) or another process holds
+    the SHARED path lock on the path the method locks; a writer must then be unable to proceed until the holder leaves,
+    a reader must be admitted.  The methods run unmodified; only the name `path_lock` in the two user modules is bound to
+    a virtual-primitive instance of lock.py (no file of /repo is edited)."""
+    import shutil
+    import pharmpy.workflows.contexts.local_directory as cl
+    import pharmpy.workflows.model_database.local_directory as ml
+    from pharmpy.workflows.hashing import ModelHash
+    base = ctx.rundir / 'users' / 'fs'
+    shutil.rmtree(base, ignore_errors=True)
+    base.mkdir(parents=True)
+    key = ModelHash('A' * 43)
+
+    def with_empty(cm):
+        with cm:
+            pass
+
+    drivers = {
+        'LocalDirectoryContext.store_annotation': ('ctx', lambda o: o.store_annotation('m1', 'note')),
+        'LocalDirectoryContext.retrieve_annotation': ('ctx', lambda o: o.retrieve_annotation('m0')),
+        'LocalDirectoryContext.store_message': ('ctx', lambda o: o.store_message('warning', o.context_path, '2020-01-01', 'msg')),
+        'LocalDirectoryContext.retrieve_log': ('ctx', lambda o: o.retrieve_log()),
+        'LocalModelDirectoryDatabase.snapshot': ('db', lambda o: with_empty(o.snapshot(key))),
+        'LocalModelDirectoryDatabase.transaction': ('db', lambda o: with_empty(o.transaction(key))),
+    }
+    world = World(2)
+    m0, m1 = world.machines
+    results = []
+    saved = (cl.path_lock, ml.path_lock)
+    try:
+        byname = {st['name']: st for st in sites}
+        allsites = list(sites) + [{'name': n, 'writes': not sh, 'reads': sh, 'shared': sh, 'ops': ['no lock site found in the source'],
+                                   'file': '?', 'line': 0, 'helper': None} for n, sh in SPECIFIED if n not in byname]
+        for si, site in enumerate(allsites):
+            if site['name'] not in drivers:
+                ctx.broken.append(f"TRANSLATOR-REFUSED users oracle: no driver for lock site {site['name']}")
+                continue
+            kind, drive = drivers[site['name']]
+            for hp in (0, 1):
+                S = vs.Sched()
+                world.holder.S = S
+                world.holder.kernel = vs.VKernel(S)
+                for m in world.machines:
+                    vs.reset_pools(m.mod)
+                requests = []
+
+                def recording(path, shared=False, blocking=True, reentrant=False):
+                    requests.append((path, shared))
+                    return m0.mod.path_lock(path, shared=shared, blocking=blocking, reentrant=reentrant)
+                cl.path_lock = ml.path_lock = recording
+                root = base / f's{si}h{hp}'
+                obj = cl.LocalDirectoryContext('ctx', ref=str(root)) if kind == 'ctx' else ml.LocalModelDirectoryDatabase(root / 'db')
+                if kind == 'ctx':
+                    (obj._annotations_path).write_text('m0 zero\n')
+
+                def finish(rec):
+                    k = 0
+                    while not rec['done'] and S.runnable(rec) and k < 2000:
+                        S.grant(rec)
+                        k += 1
+                # dry run: which path / mode does the method ask for?
+                r0 = S.spawn(lambda rec: drive(obj))
+                finish(r0)
+                asked = list(requests)
+                if r0['done'] and not r0['crash'] and not asked:
+                    results.append({'site': site['name'], 'holder': hp, 'outcome': 'takes-no-lock', 'completed_afterwards': True, 'crash': None,
+                                    'path': '(none)', 'asked_shared': None})
+                    S.abort_all()
+                    continue
+                if not r0['done'] or r0['crash'] or len(asked) != 1:
+                    results.append({'site': site['name'], 'holder': hp, 'outcome': 'dry-run-failed', 'asked': asked, 'crash': r0['crash']})
+                    S.abort_all()
+                    continue
+                path = asked[0][0]
+                hm = world.machines[hp].mod
+
+                def hold(rec):
+                    with hm.path_lock(path, shared=True):
+                        S.yield_point(('body',))
+                ra = S.spawn(hold)
+                k = 0
+                while not ra['done'] and ra['want'][0] != 'body' and k < 500:
+                    S.grant(ra)
+                    k += 1
+                rb = S.spawn(lambda rec: drive(obj))
+                finish(rb)
+                admitted = rb['done'] and not rb['crash']
+                blocked = (not rb['done']) and not S.runnable(rb)
+                finish(ra)
+                finish(rb)
+                ok_end = ra['done'] and rb['done'] and not ra['crash'] and not rb['crash']
+                results.append({'site': site['name'], 'holder': 'same process' if hp == 0 else 'other process', 'path': path,
+                                'asked_shared': asked[0][1], 'outcome': 'admitted' if admitted else ('blocked' if blocked else 'other'),
+                                'completed_afterwards': ok_end, 'crash': ra['crash'] or rb['crash']})
+                S.abort_all()
+    finally:
+        cl.path_lock, ml.path_lock = saved
+    ctx.coverage['users_oracle'] = results
+    for r, site in [(r, next(s for s in allsites if s['name'] == r['site'])) for r in results]:
+        if r['outcome'] == 'dry-run-failed' or r.get('crash') or not r.get('completed_afterwards', True):
+            ctx.broken.append('users oracle could not run ' + json.dumps(r)[:300])
+        elif site['writes'] and r['outcome'] == 'takes-no-lock':
+            ctx.violation(f"{r['site']} is specified as a writer under the exclusive path lock but takes no path lock at all",
+                          {'static': True, 'oracle': r, 'site': site})
+        elif site['writes'] and r['outcome'] != 'blocked':
+            ctx.violation(f"{r['site']} writes ({', '.join(site['ops'])}) but is {r['outcome']} while a thread of the {r['holder']} "
+                          f"holds the shared lock on {r['path'].rsplit('/', 1)[-1]} (it asked path_lock for shared={r['asked_shared']})",
+                          {'static': True, 'oracle': r, 'site': site})
+    ctx.coverage['evaluations'] = ctx.coverage.get('evaluations', 0)
+    return results
 
 
 def run(ctx):
@@ -822,7 +1062,8 @@ def run(ctx):
     ctx.coverage['kernel_conformance'] = {'differences': kd, 'real_fcntl': kreal}
     if pd or kd:
         ctx.broken.append('virtual primitives / virtual kernel differ from threading / fcntl: ' + json.dumps((pd or kd)[0])[:600])
-    check_users(ctx)
+    sites = check_users(ctx)
+    users_oracle(ctx, sites)
     finding_probes(ctx)
     quick = ctx.tier == 'quick'
     reg = sorted((VERIF / 'regress' / 'C15').glob('*.json'))
@@ -891,7 +1132,13 @@ def replay(ctx, rep):
         table, problems, refused = lock_mode_table()
         print('lock modes requested by the users of path_lock:', json.dumps(table, indent=1))
         print('problems', problems, 'refused', refused)
-        return 1 if problems or refused else 0
+        sites = check_users(ctx)
+        for st in sites:
+            print('lock site', st['name'], 'shared' if st['shared'] else 'exclusive', 'writes' if st['writes'] else 'read-only', st['ops'])
+        res = users_oracle(ctx, sites)
+        for r in res:
+            print('oracle', r)
+        return 1 if (problems or refused or ctx.violations or ctx.broken) else 0
     spec = rep.get('spec', rep)
     verdicts, obss, _ = run_specs(ctx, [spec], 'replay', quiet=True)
     tags = verdicts[0]
